@@ -820,6 +820,23 @@ def normFont (defaultFamily : Str) (f : Font) : Font :=
     colorIndexed := if 0 ≤ f'.colorIndexed ∧ f'.colorIndexed ≤ (Facts.C17.indexedColorCount : Int) + 1 then f'.colorIndexed else 0,
     colorTheme := f'.colorTheme, colorTint := f'.colorTint, vertAlign := [] }
 
+/-- normalised fill of a request; `none` = the workbook's default fill (entry 0): valid pattern /
+gradient fills keep pattern index, shading and (normalised) colours — one colour for a pattern,
+two for a gradient; an out-of-range pattern or malformed gradient is dropped (`Fill{}`); no fill
+and unknown fill types give the default -/
+def normFill (fl : Fill) : Option Fill :=
+  if fl.typ = "gradient".toList then
+    match fl.colors with
+    | [a, b] =>
+      if 0 ≤ fl.shading ∧ fl.shading ≤ 16 then some ⟨"gradient".toList, 0, [normColor a, normColor b], fl.shading⟩
+      else some Fill.zero
+    | _ => some Fill.zero
+  else if fl.typ = "pattern".toList then
+    if 0 ≤ fl.pattern ∧ fl.pattern ≤ 18 then
+      some ⟨"pattern".toList, fl.pattern, (match fl.colors with | [] => [] | c :: _ => [normColor c]), 0⟩
+    else some Fill.zero
+  else none
+
 end Spec
 
 end XlModel.Styles
